@@ -48,8 +48,13 @@ def _ops():
     ops.append(("reset_all", None))
     ops.append(("merge", ("hard", {KEYS["str"]: "TkAgg", KEYS["bool"]: True})))
     ops.append(("merge", ("soft", {KEYS["str"]: "TkAgg", KEYS["int"]: 1})))
-    ops.append(("upgrade", [KEYS["bool"], KEYS["float"], KEYS["list"]]))
-    ops.append(("upgrade", []))
+    # upgrades from several version markers (any marker different from the
+    # current version means "outdated": older, lexicographically larger,
+    # empty, garbage, even a newer one)
+    for ver in ("v0.0.1", "v1.9.0", "v1.30.12", "", "garbage", "v9.0.0"):
+        ops.append(("upgrade", ([KEYS["bool"], KEYS["float"], KEYS["list"]],
+                                ver)))
+    ops.append(("upgrade", ([], "v1.4.2")))
     return ops
 
 
@@ -144,10 +149,11 @@ class SettingsMachine(object):
                 main_config.merge_json_union(self.path, self.other,
                                              soft=mode == "soft")
             elif name == "upgrade":
+                arg, version = arg
                 old = {k: v for k, v in before.items() if k not in arg}
                 self._write(old)
                 with open(self.vpath, "w") as f:
-                    f.write("v0.0.1")
+                    f.write(version)
                 saved = (settings.DEFAULT_PATH,
                          settings.USER_ASSETS_VERSION_PATH)
                 settings.DEFAULT_PATH = type(saved[0])(self.path)
